@@ -693,6 +693,27 @@ func crashIndex(r *core.Report, cs *crashScope, floor int) {
 				case *ast.IndexExpr:
 					k, ok := intConst(info, x.Index)
 					if !ok {
+						// x[len(x)-k]: the last element(s) of a list that may be empty
+						idxExpr := ast.Unparen(x.Index)
+						if iid, isID := idxExpr.(*ast.Ident); isID {
+							// `last := len(x) - 1; x[last]`
+							if as := ff.Assigns(info.ObjectOf(iid)); len(as) == 1 && as[0].Rhs != nil {
+								idxExpr = ast.Unparen(as[0].Rhs)
+							}
+						}
+						if be, isBin := idxExpr.(*ast.BinaryExpr); isBin && be.Op == token.SUB {
+							if kk, isK := intConst(info, be.Y); isK && kk >= 1 {
+								if lc, isCall := ast.Unparen(be.X).(*ast.CallExpr); isCall && len(lc.Args) == 1 {
+									if fid, isID := lc.Fun.(*ast.Ident); isID && fid.Name == "len" && core.ExprStr(lc.Args[0]) == core.ExprStr(x.X) {
+										if _, isMap := info.TypeOf(x.X).Underlying().(*types.Map); !isMap {
+											base, need = x.X, int(kk)
+										}
+									}
+								}
+							}
+						}
+					}
+					if !ok && base == nil {
 						// an index parsed from text (strconv.Atoi / ParseInt) can be negative
 						if id, isID := ast.Unparen(x.Index).(*ast.Ident); isID {
 							if _, isMap := info.TypeOf(x.X).Underlying().(*types.Map); !isMap {
@@ -732,7 +753,9 @@ func crashIndex(r *core.Report, cs *crashScope, floor int) {
 						}
 						return true
 					}
-					base, need = x.X, int(k)+1
+					if base == nil {
+						base, need = x.X, int(k)+1
+					}
 				case *ast.SliceExpr:
 					if x.Low == nil {
 						return true
@@ -792,6 +815,14 @@ func crashIndex(r *core.Report, cs *crashScope, floor int) {
 				} else if w := lockstepCounter(info, ff, fd, base, atoms, need); w != "" {
 					why = w
 				}
+				if why == "" {
+					// a parameter: every call site of the package hands over a list with the fact
+					if id, isID := ast.Unparen(base).(*ast.Ident); isID {
+						if _, isDecl := syn.(*ast.FuncDecl); isDecl {
+							why = callersLenFact(p, info, fd, info.ObjectOf(id), need)
+						}
+					}
+				}
 				if why != "" {
 					r.OK(key, p.Pos(n.Pos()), why)
 				} else {
@@ -802,6 +833,65 @@ func crashIndex(r *core.Report, cs *crashScope, floor int) {
 		}
 		r.Extra[cs.id+"_const_index_sites"] = na
 	})
+}
+
+// callersLenFact: o is a parameter of fd that is not assigned in it, and every call of fd in its
+// package passes a list for which a library fact or the guards at the call give len >= need.
+func callersLenFact(p *core.Prog, info *types.Info, fd *ast.FuncDecl, o types.Object, need int) string {
+	if o == nil || fd.Type.Params == nil {
+		return ""
+	}
+	idx, k := -1, 0
+	for _, f := range fd.Type.Params.List {
+		for _, nm := range f.Names {
+			if info.ObjectOf(nm) == o {
+				idx = k
+			}
+			k++
+		}
+	}
+	if idx < 0 || assignedAfter(info, fd.Body, o, fd.Body.Pos()) {
+		return ""
+	}
+	self, _ := info.Defs[fd.Name].(*types.Func)
+	if self == nil || self.Pkg() == nil {
+		return ""
+	}
+	rel := core.RelPkg(self.Pkg())
+	n := 0
+	for _, d := range p.AllDecls(rel) {
+		if d.Body == nil {
+			continue
+		}
+		ok := true
+		var ffc *core.FuncFacts
+		ast.Inspect(d.Body, func(nd ast.Node) bool {
+			c, isCall := nd.(*ast.CallExpr)
+			if !isCall || core.CalleeOf(info, c) != self || idx >= len(c.Args) {
+				return true
+			}
+			n++
+			if ffc == nil {
+				ffc = core.NewFuncFacts(p, info, d)
+			}
+			arg := c.Args[idx]
+			have := 0
+			if path := core.AccessPath(info, arg); path != "" {
+				have = lenAtLeast(info, core.Atoms(core.GuardsAt(info, d.Body, c)), path, arg)
+			}
+			if have < need && libLenFact(info, ffc, arg, need) == "" {
+				ok = false
+			}
+			return true
+		})
+		if !ok {
+			return ""
+		}
+	}
+	if n == 0 {
+		return ""
+	}
+	return fmt.Sprintf("a parameter that is not reassigned; each of the %d call sites in the package passes a list known to have at least %d element(s)", n, need)
 }
 
 // assignedAfter: some statement of body positioned after pos assigns o (or takes its address).
